@@ -13,16 +13,16 @@ fn domain(tier: Tier) -> Vec<Shape> {
                 v.push(Shape::Rect { x, y, w, h });
             }
         }
-        for d in 0..=tier.pick(40, 80) {
+        for d in 0..=tier.pick(40, 200) {
             v.push(Shape::Circle { x, y, d });
         }
-        let e = tier.pick(24, 48);
+        let e = tier.pick(24, 96);
         for w in 0..=e {
             for h in 0..=e {
                 v.push(Shape::Ellipse { x, y, w, h });
             }
         }
-        let (ms, mr) = tier.pick((10, 6), (14, 9));
+        let (ms, mr) = tier.pick((10, 6), (18, 11));
         for w in 0..=ms {
             for h in 0..=ms {
                 for rx in 0..=mr {
@@ -48,7 +48,7 @@ fn domain(tier: Tier) -> Vec<Shape> {
             }
         }
         // sectors
-        let (md, step) = tier.pick((16, 15), (32, 5));
+        let (md, step) = tier.pick((16, 15), (48, 5));
         for d in 0..=md {
             let mut s = 0;
             while s < 360 {
@@ -72,7 +72,7 @@ fn domain(tier: Tier) -> Vec<Shape> {
     }
     // triangles with non-zero area
     let tris = if t {
-        let mut a = tri_grid(7, 1, -3, -3);
+        let mut a = tri_grid(8, 1, -4, -3);
         a.extend(tri_grid(5, 3, -6, -5));
         a
     } else {
